@@ -50,7 +50,7 @@ def _through_lysosome(c):
     if not c:
         return None
     for j, name in enumerate(c[:-1]):
-        if "lys" in name.lower():
+        if "lysosome" in name.lower() or name.lower().strip("_") in ("lys", "lyso"):
             return c[j + 1]
     return None
 
